@@ -67,7 +67,7 @@ func draw(rt *rapid.T) Case {
 			}
 			if nr > 0 && rapid.IntRange(0, 3).Draw(rt, "slowReader") == 0 {
 				cn.BigReply = rapid.IntRange(0, nr-1).Draw(rt, "bigAt")
-				cn.SlowReaderMs = rapid.SampledFrom([]int{700, 1300}).Draw(rt, "slowReaderMs")
+				cn.SlowReaderMs = rapid.SampledFrom([]int{700, 1300, 2500}).Draw(rt, "slowReaderMs")
 			}
 			s.Conns = append(s.Conns, cn)
 		}
@@ -78,8 +78,10 @@ func draw(rt *rapid.T) Case {
 
 // sleeper is a hand-written dispatcher: the request buffer carries the handler's sleep.
 type sleeper struct {
-	mu   sync.Mutex
-	last time.Time
+	mu      sync.Mutex
+	last    time.Time
+	started map[int32]time.Time // request id -> moment its handler was entered
+	active  int                 // handlers currently running
 }
 
 func (d *sleeper) Dispatch(ctx context.Context, imp interface{}, req *requestf.RequestPacket, resp *requestf.ResponsePacket, withContext bool) error {
@@ -87,9 +89,17 @@ func (d *sleeper) Dispatch(ctx context.Context, imp interface{}, req *requestf.R
 	if len(req.SBuffer) >= 4 {
 		ms = int(binary.BigEndian.Uint32([]byte{byte(req.SBuffer[0]), byte(req.SBuffer[1]), byte(req.SBuffer[2]), byte(req.SBuffer[3])}))
 	}
+	d.mu.Lock()
+	if d.started == nil {
+		d.started = map[int32]time.Time{}
+	}
+	d.started[req.IRequestId] = time.Now()
+	d.active++
+	d.mu.Unlock()
 	time.Sleep(time.Duration(ms) * time.Millisecond)
 	d.mu.Lock()
 	d.last = time.Now()
+	d.active--
 	d.mu.Unlock()
 	*resp = requestf.ResponsePacket{IVersion: req.IVersion, IRequestId: req.IRequestId, SBuffer: req.SBuffer}
 	if len(req.SBuffer) >= 8 {
@@ -181,6 +191,15 @@ func runScenario(si int, s Scenario) scenResult {
 	if s.MaxInvoke > 0 && res.midFlight > int(s.MaxInvoke) {
 		res.queued = res.midFlight - int(s.MaxInvoke)
 	}
+	// second, independent measurement of "already read": a request whose handler had been
+	// entered before Shutdown was called has certainly been read (this does not depend on the
+	// server's own counter)
+	handlerStarted := map[int32]bool{}
+	d.mu.Lock()
+	for id := range d.started {
+		handlerStarted[id] = true
+	}
+	d.mu.Unlock()
 	ctx, cancel := context.WithTimeout(context.Background(), time.Duration(s.CtxTimeoutS)*time.Second)
 	defer cancel()
 	t0 := time.Now()
@@ -206,6 +225,9 @@ func runScenario(si int, s Scenario) scenResult {
 		return res
 	}
 	took := time.Since(t0)
+	d.mu.Lock()
+	activeAtReturn := d.active
+	d.mu.Unlock()
 	// "... or when its context expires, whichever is first": when Shutdown ran into its
 	// context, unanswered requests and open connections are legitimate
 	expired := took >= time.Duration(s.CtxTimeoutS)*time.Second-300*time.Millisecond
@@ -213,19 +235,28 @@ func runScenario(si int, s Scenario) scenResult {
 		// ... but only when the server really was busy until then: if the last handler
 		// finished well before the context expired, nothing legitimate was left to wait for
 		d.mu.Lock()
-		busyUntilEnd := !d.last.IsZero() && d.last.After(t0.Add(time.Duration(s.CtxTimeoutS)*time.Second-time.Second))
+		busyUntilEnd := activeAtReturn > 0 || (!d.last.IsZero() && d.last.After(t0.Add(time.Duration(s.CtxTimeoutS)*time.Second-time.Second)))
 		d.mu.Unlock()
 		if !busyUntilEnd {
 			expired = false
 		}
 	}
-	// give the connections a moment to deliver what was written before the close
+	// give the connections a moment to deliver what was written before the close; a gated
+	// (slow) reader must have started draining its socket before anything is judged
+	for i := range s.Conns {
+		if w := time.Until(t0.Add(time.Duration(s.Conns[i].SlowReaderMs+400) * time.Millisecond)); gates[i] != nil && w > 0 {
+			time.Sleep(w)
+		}
+	}
 	time.Sleep(150 * time.Millisecond)
 	d.mu.Lock()
 	lastHandler := d.last
 	d.mu.Unlock()
 	for i, c := range conns {
 		pk, errs, closed := c.Packets()
+		if os.Getenv("VERIF_C12_DEBUG") != "" {
+			fmt.Printf("C12-DEBUG scenario %d conn %d: %d packets, errs %v, closed %v, took %v, obligated %d, started %v\n", si, i, len(pk), errs, closed, took, obligated[i], handlerStarted)
+		}
 		if len(errs) > 0 {
 			res.f = stat.Failf("reply-stream-corrupt", "scenario %d conn %d: %s", si, i, errs[0])
 			return res
@@ -250,6 +281,13 @@ func runScenario(si int, s Scenario) scenResult {
 			id := int32(1000*(i+1) + k)
 			if answered[id] != 1 {
 				res.f = stat.Failf("request-not-answered", "scenario %d (pool %d, queue cap %d, shutdown after %d ms) conn %d: request #%d (handler %d ms) had been read by the server before Shutdown but received %d replies; %d of %d requests were obligated, %d replies arrived, connection closed by server: %v, Shutdown took %v", si, s.MaxInvoke, s.QueueCap, s.ShutdownMs, i, k, s.Conns[i].SleepMs[k], answered[id], obligated[i], len(s.Conns[i].SleepMs), len(answered), closed, took.Round(10*time.Millisecond))
+				return res
+			}
+		}
+		for k := range s.Conns[i].SleepMs {
+			id := int32(1000*(i+1) + k)
+			if handlerStarted[id] && answered[id] != 1 && !expired {
+				res.f = stat.Failf("request-not-answered", "scenario %d (pool %d, queue cap %d, shutdown after %d ms) conn %d: the handler of request #%d (%d ms) had been entered before Shutdown was called, but the request received %d replies (connection closed by server: %v, Shutdown took %v)", si, s.MaxInvoke, s.QueueCap, s.ShutdownMs, i, k, s.Conns[i].SleepMs[k], answered[id], closed, took.Round(10*time.Millisecond))
 				return res
 			}
 		}
@@ -313,8 +351,25 @@ func run(c Case) (*stat.Failure, bool) {
 	return nil, nt
 }
 
+// pinnedCases: the response write is still blocked (12 MB reply, client not draining yet)
+// while the shutdown pollers run, the handler itself having returned before Shutdown.
+var pinnedCases = map[string]Case{
+	"blocked-write-at-shutdown": {Scenarios: []Scenario{
+		{MaxInvoke: 0, QueueCap: 10000, ShutdownMs: 120, CtxTimeoutS: 6, Conns: []Conn{{SleepMs: []int{0}, BigReply: 0, SlowReaderMs: 2500}}},
+		{MaxInvoke: 2, QueueCap: 64, ShutdownMs: 120, CtxTimeoutS: 6, Conns: []Conn{{SleepMs: []int{0}, BigReply: 0, SlowReaderMs: 2500}, {SleepMs: []int{10, 400}, BigReply: -1}}},
+		{MaxInvoke: 1, QueueCap: 8, ShutdownMs: 60, CtxTimeoutS: 6, Conns: []Conn{{SleepMs: []int{0, 0, 0}, BigReply: 2, SlowReaderMs: 2000}}},
+	}},
+}
+
 func TestC12(t *testing.T) {
 	defer st.Emit()
+	if o := os.Getenv("VERIF_ONLY"); stat.ReplayPath() == "" && (o == "" || o == "pinned") {
+		stat.Pinned(t, st, "shutdown", pinnedCases, func(c Case) *stat.Failure {
+			f, nt := run(c)
+			st.CaseJSON(c, nt, "pinned-blocked-write")
+			return f
+		})
+	}
 	stat.Check(t, st, "shutdown", stat.N(14, 400), draw, func(c Case) *stat.Failure {
 		f, nt := run(c)
 		var cls []string
